@@ -132,6 +132,31 @@ Theorem C17_per_message_independent : forall k ws,
 Proof. exact message_list_independent. Qed.
 Print Assumptions C17_per_message_independent.
 
+(* Precedence.  Transfer-Encoding: chunked overrides Content-Length: when the
+   completed header block says chunked, the body goes to the chunk decoder
+   whatever Content-Length says (any value, either header order), in requests
+   and responses, and the Content-Length value influences nothing else either
+   (not .length, hence not the persistence decision). *)
+Theorem C17_chunked_overrides_length : forall k sl h cy b h' r,
+  leader_step h b = LDone h' r -> te_chunked h' = true ->
+  msg_stage k {| m_phase := PLeader sl h; m_carry := cy |} b =
+  Step {| m_phase := PChunk {| hd_start := sl; hd_headers := h'; hd_chunked := true;
+                               hd_persisted := head_persisted k sl h' (head_length k sl h') |} CSize [] [];
+          m_carry := init_carry |} r None
+  /\ head_length k sl h' =
+     match k with
+     | Req => None
+     | Resp head =>
+       let st := sl_status sl in
+       if N.eqb st 204 || N.eqb st 304 || (N.leb 100 st && N.ltb st 200) || head then Some 0%N else None
+     end.
+Proof.
+  intros k sl h cy b h' r Hl Hc. split.
+  - exact (chunked_overrides_length k sl h cy b h' r Hl Hc).
+  - exact (chunked_length_ignored k sl h' Hc).
+Qed.
+Print Assumptions C17_chunked_overrides_length.
+
 (* Non-vacuity: a response whose head and first bytes were parsed, then the
    rest (two chunks, last-chunk, trailer) arrives together with the closure. *)
 Example C17_closed_example :
